@@ -32,6 +32,14 @@ type c02Op struct {
 	Name2  string `json:"name2,omitempty"`
 	How    uint32 `json:"how,omitempty"`
 	Target string `json:"target,omitempty"`
+	// C04 extras
+	SetMode bool   `json:"setmode,omitempty"`
+	Mode    uint32 `json:"mode,omitempty"`
+	SetSize bool   `json:"setsize,omitempty"`
+	Size    uint64 `json:"size,omitempty"`
+	Times   int    `json:"times,omitempty"` // 0 none, 1 server time, 2 client time
+	Off     uint64 `json:"off,omitempty"`
+	Len     int    `json:"len,omitempty"`
 }
 
 type c02Case struct {
@@ -146,6 +154,8 @@ func modelVerdict(m *mtree, op c02Op) verdict {
 			return verdict{expOK, none}
 		}
 		return verdict{expFail, none}
+	case "setattr", "write", "read", "access":
+		return verdict{expEither, none} // only their attributes are judged (C04)
 	}
 	panic("unknown op " + op.Kind)
 }
@@ -164,7 +174,14 @@ func c02AllDirs() []string {
 }
 
 func genC02Ops(t *rapid.T, maxOps int, kinds []string) []c02Op {
+	return genC02OpsFrom(t, maxOps, kinds, false)
+}
+
+func genC02OpsFrom(t *rapid.T, maxOps int, kinds []string, seeded bool) []c02Op {
 	m := newMtree()
+	if seeded {
+		seedTree(vfs.New(), m)
+	}
 	n := rapid.IntRange(3, maxOps).Draw(t, "nops")
 	all := c02AllDirs()
 	pickDir := func(label string) string {
@@ -252,6 +269,8 @@ type nsClient struct {
 	m     *mtree
 	held  map[string]heldHandle
 	canon []string
+	lenient bool         // namespace verdict differences abandon the case instead of reporting (used by C04)
+	attrs   *attrOracle  // C04 attribute oracle (nil in C02)
 	// bookkeeping for labels / non-triviality
 	dirty   map[string]bool
 	ntReads int
@@ -313,7 +332,8 @@ func (c *nsClient) exec(op c02Op) *nsViolation {
 	pre := c.v.Snapshot()
 	var mismatch bool
 	addr := op.Dir
-	if op.Kind == "getattr" || op.Kind == "readlink" {
+	switch op.Kind {
+	case "getattr", "readlink", "setattr", "write", "read", "access":
 		addr = op.objPath()
 	}
 	fh, mm, viol := c.handleFor(addr)
@@ -353,7 +373,40 @@ func (c *nsClient) exec(op c02Op) *nsViolation {
 
 	var res *nfsx.Res
 	var gotNames []string
+	var allEntries []nfsx.Entry
+	preL := map[string]vfs.Entry{}
+	for _, p := range []string{op.Dir, op.objPath(), op.Dir2} {
+		if p != "" {
+			if e, ok := c.v.PeekLstat(p); ok {
+				preL[p] = e
+			}
+		}
+	}
 	switch op.Kind {
+	case "setattr":
+		var sa nfsx.Sattr
+		if op.SetMode {
+			sa.Mode = nfsx.U32p(op.Mode)
+		}
+		if op.SetSize {
+			sa.Size = nfsx.U64p(op.Size)
+		}
+		if op.Times == 1 {
+			sa.Atime, sa.Mtime = nfsx.SetTime{How: 1}, nfsx.SetTime{How: 1}
+		} else if op.Times == 2 {
+			sa.Atime, sa.Mtime = nfsx.SetTime{How: 2, T: nfsx.Time{Sec: 12345, Nsec: 6}}, nfsx.SetTime{How: 2, T: nfsx.Time{Sec: 54321, Nsec: 7}}
+		}
+		res = s.nfs(nfsx.ProcSetattr, nfsx.ArgsSetattr(fh, sa, nil))
+	case "write":
+		data := make([]byte, op.Len)
+		for i := range data {
+			data[i] = byte(i) | 1
+		}
+		res = s.nfs(nfsx.ProcWrite, nfsx.ArgsWrite(fh, op.Off, uint32(len(data)), nfsx.FileSync, data))
+	case "read":
+		res = s.nfs(nfsx.ProcRead, nfsx.ArgsRead(fh, op.Off, uint32(op.Len)))
+	case "access":
+		res = s.nfs(nfsx.ProcAccess, nfsx.ArgsAccess(fh, 0x3f))
 	case "lookup":
 		res = s.nfs(nfsx.ProcLookup, nfsx.ArgsDirop(fh, op.Name))
 	case "create":
@@ -397,6 +450,7 @@ func (c *nsClient) exec(op c02Op) *nsViolation {
 					return &nsViolation{"readdir-duplicate-entry", fmt.Sprintf("%s: entry %q returned twice", desc, e.Name)}
 				}
 				seen[e.Name] = true
+				allEntries = append(allEntries, e)
 				gotNames = append(gotNames, e.Name)
 				cookie = e.Cookie
 				if e.Fh != nil && ver.exp == expOK && !mismatch {
@@ -415,6 +469,10 @@ func (c *nsClient) exec(op c02Op) *nsViolation {
 
 	// ---- OK-vs-fail against the model
 	switch {
+	case c.lenient && (ver.exp == expOK && !ok && !mismatch || ver.exp == expFail && ok):
+		// the namespace verdict is C02's business; this check only needs a model that is still in step
+		stat.Discard(false)
+		panic(abandon{"namespace verdict differs from the model (judged by C02)"})
 	case ver.exp == expOK && !ok:
 		if !mismatch {
 			return &nsViolation{"unexpected-failure:" + op.Kind, fmt.Sprintf("%s: model says it succeeds, server replied %s", desc, statusName(res.Status))}
@@ -477,14 +535,24 @@ func (c *nsClient) exec(op c02Op) *nsViolation {
 		}
 	}
 
+	if c.attrs != nil {
+		if v := c.attrs.check(c, op, res, allEntries, preL, mismatch); v != nil {
+			return v
+		}
+	}
+
 	// ---- backend tree
 	post := c.v.Snapshot()
-	if !ok {
+	if !ok && !c.lenient {
 		if d := vfs.DiffSnapshots(pre, post); d != "" {
 			return &nsViolation{"failed-request-changed-tree:" + op.Kind, fmt.Sprintf("%s replied %s but the backend tree changed: %s", desc, statusName(res.Status), d)}
 		}
 	}
 	if d := diffFlat(c.m.flat(), flatSnapshot(post)); d != "" {
+		if c.lenient {
+			stat.Discard(false)
+			panic(abandon{"tree diverged (judged by C02)"})
+		}
 		return &nsViolation{"tree-diverges-from-model:" + op.Kind, fmt.Sprintf("after %s (%s): %s", desc, statusName(res.Status), d)}
 	}
 
